@@ -38,6 +38,7 @@ class C08Run(object):
         self.arbiters = []
         self.arbiter_times = []
         self.trigger_t = None
+        self.clients = []
         self.deadline_hit = False
         self.inflight = False
 
@@ -75,6 +76,9 @@ class C08Run(object):
                 ent['singleton'] = True
             if socks and wc.get('use_sockets'):
                 ent['use_sockets'] = True
+            if socks and wc.get('on_demand'):
+                ent['use_sockets'] = True
+                ent['on_demand'] = True
             for hname, fn in (wc.get('ini_hooks') or {}).items():
                 ent['hooks.%s' % hname] = 'circus_sim.hookmods.%s' % fn
             ws.append(ent)
@@ -165,6 +169,11 @@ class C08Run(object):
         return self
 
     def leftover_sockets(self):
+        for c in self.clients:
+            try:
+                c.close()
+            except Exception:
+                pass
         for a in self.arbiters:
             for s in list(a.sockets.values()):
                 try:
@@ -234,6 +243,22 @@ class C08Run(object):
                 else:
                     k.external_exit(pid, op.get('arg', 1))
                 self.count(self.fired, 'die')
+        elif kind == 'connect':
+            # a client connects to a managed socket: the next periodic check
+            # starts the on-demand watcher, outside the command lock
+            import socket as _socket
+            if self.unix_paths:
+                try:
+                    c = _socket.socket(_socket.AF_UNIX, _socket.SOCK_STREAM)
+                    c.setblocking(False)
+                    try:
+                        c.connect(self.unix_paths[0])
+                    except BlockingIOError:
+                        pass
+                    self.clients.append(c)
+                    self.count(self.fired, 'socket_event')
+                except OSError:
+                    pass
         elif kind == 'addsock':
             # the configuration file gains a managed unix socket (bound by
             # the next reloadconfig, not at start-up): its file is the
@@ -473,7 +498,8 @@ class C08(Prop):
     hashseed_sensitive = True
     rule = ('one case = the real circusd.main() on a generated ini file '
             '(1-3 watchers incl. stubborn / slow workers, inet and unix '
-            'managed sockets, pid file with seeded pre-existing content) + '
+            'managed sockets, pid file with seeded pre-existing content; in '
+            '12 % an on-demand watcher and a client connection) + '
             'armed operations: requests (incr, decr, restart, reload, stop, '
             'start, reloadconfig, daemon restart), worker deaths, SIGHUP, '
             'then quit or SIGTERM / SIGINT / SIGQUIT delivered at a seeded '
@@ -557,6 +583,23 @@ class C08(Prop):
                                              0.3])
         else:
             tt = t + startup + rng.choice([0.0, 0.5, 1.0, 1.01, 3.0])
+        if rng.random() < 0.12:
+            # an on-demand watcher started by a socket event (from the
+            # periodic check, outside the command lock); the shutdown
+            # arrives around that start
+            cfg['sockets'] = [{'kind': 'unix'}] + cfg['sockets']
+            wc = rng.choice(cfg['watchers'])
+            wc['on_demand'] = True
+            wc['opts'].pop('singleton', None)
+            wc['opts']['numprocesses'] = rng.choice([1, 2, 3])
+            wc['opts']['warmup_delay'] = rng.choice([0, 1, 2])
+            if cfg.get('check_delay', 1.0) > 5:
+                cfg['check_delay'] = 1.0
+            tc = t + startup + rng.choice([0.0, 0.3, 1.2])
+            ops.append({'op': 'connect', 'at': tc})
+            tt = tc + rng.random() * (
+                cfg.get('check_delay', 1.0) + 0.5 +
+                wc['opts']['numprocesses'] * wc['opts']['warmup_delay'])
         sub = rng.choice([None, None, {'calls': rng.randrange(1, 30)},
                           {'steps': rng.randrange(1, 30)}])
         if rng.random() < 0.3:
